@@ -1066,6 +1066,8 @@ def dist_key(case):
     if case.get("stream") == "exit":
         v, _, site = case["tag"].split("/")
         return f"exit/{v}/{site}/{sts[0]['op']}/iter{min(sts[0]['max_iter'], 4)}{'+' if sts[0]['max_iter'] > 4 else ''}"
+    if case.get("stream") == "overflow":
+        return f"overflow/{sts[0]['op']}/iter{sts[0]['max_iter']}"
     if case.get("stream") == "pins":
         return f"pins/{case['tag']}/{'algo' if any(s['op'] == 'algo' for s in sts) else 'layout'}/{min(len(sts), 3)}steps"
     if len(sts) == 1:
@@ -1119,6 +1121,46 @@ def long_oracle_case(rng, idx, iters=LONG_QUICK, twice=False):
     return c
 
 
+OVERFLOW = {"cases": 0, "returned": 0, "raised": {}}
+
+
+def overflow_case(rng, idx):
+    """ORACLE-ONLY stream: one net of weight 1e308, so that the attraction w*d^2/k overflows to inf and the displacement
+    of its pins is inf - inf / inf / inf = nan; what the relocation RETURNS must still be finite and inside the die (the
+    move step clamps min(W/2, max(-W/2, x)), whose argument order sends nan to the border).  Small netlists of the long
+    stream, max_iter 1, 2, 3, 5, 20.  The implementation raises OverflowError (Point.norm) / ZeroDivisionError (f_att) on
+    part of these inputs on the pinned tree: a call that returns nothing is counted (coverage.overflow_weight_cases)
+    and not judged - the property constrains the netlist that is returned."""
+    c = long_oracle_case(rng, idx, [1, 2, 3, 5, 20, 2, 3, 1], False)
+    c["nets"][idx % len(c["nets"])]["w"] = 1e308
+    if idx % 3:
+        c["hist"] = [dict(c["hist"][0], op="layout", kappa=c["hist"][0].get("kappa", [1.0, 0.4, 1.5][idx % 3]))]
+    c["twin"] = False
+    c["oracle_only"] = True
+    c["stream"] = "overflow"
+    return c
+
+
+def run_impl_all(case):
+    if case.get("stream") != "overflow":
+        return run_impl(case)
+    OVERFLOW["cases"] += 1
+    try:
+        obs = run_impl(case)
+    except (OverflowError, ZeroDivisionError) as e:
+        k = type(e).__name__
+        OVERFLOW["raised"][k] = OVERFLOW["raised"].get(k, 0) + 1
+        return {"raised": k}
+    OVERFLOW["returned"] += 1
+    return obs
+
+
+def oracle_all(case, obs):
+    if "raised" in obs:
+        return None
+    return oracle(case, obs)
+
+
 def run(ctx, out, replay=None):
     quick = ctx.quick()
     n_single, n_tie, n_big, n_long, n_hist = (52, 4, 3, 1, 44) if quick else (700, 40, 24, 4, 500)
@@ -1150,6 +1192,8 @@ def run(ctx, out, replay=None):
                 "once - [A,A,B], [A,A] alone, [A,B,A] / [A,B,C,A], [A,A,A,B], [A,B,A,B], or every net with one of its pins "
                 "again; one call, the same call twice, or call / reread / call; 1 in 5 force_algorithm; the nets of the "
                 "returned netlist are compared with those before the call by value (pins in order, weight). "
+                "OVERFLOW (own generator, oracle only): the small netlists of the long stream with one net of weight 1e308, "
+                "max_iter 1, 2, 3, 5, 20, 2 in 3 the layout function; judged when the call returns. "
                 "HISTORIES on one Die/Netlist object graph (about 40% of the cases): prep (create_squares | "
                 "create_initial_allocation | deepcopy | new Die on the same netlist, maybe a centre written by the caller, "
                 "then a call), again (a call, 0-2 caller steps, a second call - 55% with the very same arguments - maybe a "
@@ -1179,6 +1223,9 @@ def run(ctx, out, replay=None):
     # nets that list a module more than once: its own generator too
     rng_p = random.Random(f"C13-pins-{ctx.seed}")
     light += [gen_pins_case(rng_p, k) for k in range(n_pins)]
+    # nets whose weight overflows the attraction: its own generator too
+    rng_v = random.Random(f"C13-overflow-{ctx.seed}")
+    light += [overflow_case(rng_v, k) for k in range(24 if quick else 160)]
     heavy = [gen_hist_case(rng, ["prep", "again", "again", "walk"][i % 4]) for i in range(n_hist)]
     # interleaved, so that every Coq shard gets the same mix of cheap and expensive cases
     cases, a, b = list(first), 0, 0
@@ -1189,7 +1236,7 @@ def run(ctx, out, replay=None):
         else:
             cases.append(heavy[b])
             b += 1
-    fr.run_cases(ctx, out, cases, run_impl, to_coq, oracle, failure_key, HEADER,
+    fr.run_cases(ctx, out, cases, run_impl_all, to_coq, oracle_all, failure_key, HEADER,
                  dist_key=dist_key, nontrivial=nontrivial, shard=5, shrink=shrink)
     out.extra["relocation_calls"] = sum(1 for c in cases for s in steps_of(c) if s["op"] in CALLS)
     out.extra["history_cases"] = sum(1 for c in cases if len(steps_of(c)) > 1)
@@ -1200,6 +1247,11 @@ def run(ctx, out, replay=None):
         "note": "no Coq replay for these (the model comparison is the constant true): fixed modules, centres in the die, "
                 "only-centres, determinism (deep copy + rebuilt twin) and the argmin clause are checked by the direct "
                 "oracle, the candidates recomputed with the public layout function at the SAME max_iter on fresh dies"}
+    out.extra["overflow_weight_cases"] = {
+        "cases": OVERFLOW["cases"], "returned_and_judged": OVERFLOW["returned"], "raised_not_judged": dict(OVERFLOW["raised"]),
+        "note": "one net of weight 1e308 (attraction overflows to inf, displacement nan): the returned centres must be "
+                "finite and inside the die; calls on which the pinned implementation raises OverflowError / "
+                "ZeroDivisionError return nothing and are not judged"}
     out.extra["repeated_pin_cases"] = sum(1 for c in cases if any(len(set(e["mods"])) < len(e["mods"]) for e in c["nets"]))
     out.extra["implementation_runs"] = dict(STATS)
     out.extra["steps_past_the_die"] = {
